@@ -2,7 +2,9 @@
 (* Each line: one history executed against ONE real reader instance; every answer along the
    history must satisfy the abstract predicates of C03 (history independence). *)
 EXTENDS BigWigSpec, Json, IOUtils
+B == INSTANCE BigBedSpec
 Obs == ndJsonDeserialize(IOEnv.OBS)
+IsBed(o) == "kind" \in DOMAIN o /\ o.kind = "bb"
 VARIABLE x
 Init == x = 0
 Next == UNCHANGED x
@@ -11,7 +13,9 @@ AnsBad(o, a) ==
   \* (a query naming a chromosome the file does not have - op "badchrom" - is not judged itself: the statement does not say whether
   \*  that is an error or an empty answer; what is judged is every answer AFTER it)
   \/ (a.op # "badchrom" /\ a.err = 1)
-  \/ (a.op = "interval" /\ ~IntervalOK(Triples(o.items, a.c), a.s, a.e, a.iv))
+  \/ (a.op = "interval" /\ ~IsBed(o) /\ ~IntervalOK(Triples(o.items, a.c), a.s, a.e, a.iv))
+  \* a bigBed reader (C04): every entry overlapping the range, once, in stored order, nothing wholly outside it
+  \/ (a.op = "interval" /\ IsBed(o) /\ ~B!EntryQueryOK(Triples(o.items, a.c), a.s, a.e, a.iv))
   \/ (a.op = "values" /\ ~ValuesOK(Triples(o.items, a.c), a.s, a.e, a.vals))
   \* a zoom query through the same reader: every record of the file's level that intersects the range, in order, nothing beyond it
   \/ (a.op = "zoom" /\ ~ZoomQueryOK(Map(LAMBDA z : <<z[2], z[3]>>, SelectSeq(o.obs.zlevel, LAMBDA z : z[1] = a.c)), a.s, a.e, a.zr))
